@@ -41,6 +41,21 @@ func c05GenThreadingSeq(r *verifh.Rng) []verifh.Section {
 		}
 		secs = append(secs, verifh.Section{Cfg: fmt.Sprintf("kind=runner mode=seq n=%d", n), Ops: append(ops, "wait", "probe")})
 	}
+	// several TaskRunners alive at once, each checked against its own concurrency
+	for i := 0; i < verifh.Scale(8, 100); i++ {
+		k := r.Range(2, 3)
+		var ns []int
+		var lists [][]string
+		for j := 0; j < k; j++ {
+			n := c5.PickN(r)
+			if j > 0 && r.Chance(1, 2) {
+				n = ns[0]
+			}
+			ns = append(ns, n)
+			lists = append(lists, c5.SeqOps(r, n, r.Range(6, 20), true, c5.FinishOp(r)))
+		}
+		secs = append(secs, verifh.Section{Cfg: fmt.Sprintf("kind=runner mode=seq ns=%s", c5.MultiNs(ns)), Ops: c5.MultiOps(r, lists)})
+	}
 	return secs
 }
 
@@ -74,6 +89,7 @@ func c05StartRunner(cfg verifh.Cfg) (func(op []string) string, func()) {
 	rp := NewTaskRunner(n)
 	base := runtime.NumGoroutine()
 	wgLeaked := false
+	dead := false
 	stuckWaits := 0 // Wait calls of this section that never returned (their goroutines stay)
 	var running []*c05Gate
 	closed := func(ch chan struct{}) func() bool {
@@ -187,6 +203,9 @@ func c05StartRunner(cfg verifh.Cfg) (func(op []string) string, func()) {
 			case <-time.After(time.Millisecond):
 			}
 			if len(running) == 0 {
+				// every slot is taken although no task runs: the Schedule call above stays blocked for ever (its
+				// wg.Add(1) included) — no point in waiting for this runner again
+				wgLeaked = true
 				return "blocked-but-nothing-running"
 			}
 			old := running[0]
@@ -279,7 +298,13 @@ func c05StartRunner(cfg verifh.Cfg) (func(op []string) string, func()) {
 					}
 				}(gid)
 			}
-			if !c5.Watchdog(c5.StuckAfter, wg.Wait) {
+			// a runner whose slots leaked never lets its Schedule callers through again: give up as soon as the
+			// history stands still, and do not start further runs on this (dead) runner
+			if dead {
+				return "stuck"
+			}
+			if !c5.WatchdogProgress(h, c5.StuckIdle, c5.StuckAfter, wg.Wait) {
+				dead, wgLeaked = true, true
 				return "stuck"
 			}
 			if !waitIdle() {
@@ -357,7 +382,11 @@ func c05StartWorkerGroup(cfg verifh.Cfg) (func(op []string) string, func()) {
 
 func c05RunThreading(t *testing.T, secs []verifh.Section) {
 	logx.Disable()
-	verifh.Run(t, secs, func(cfg verifh.Cfg) (func(op []string) string, func()) {
+	var start func(cfg verifh.Cfg) (func(op []string) string, func())
+	start = func(cfg verifh.Cfg) (func(op []string) string, func()) {
+		if cfg.Str("ns", "") != "" {
+			return c5.Multi(cfg, start)
+		}
 		if cfg.Str("kind", "") == "runner" {
 			return c05StartRunner(cfg)
 		}
@@ -365,5 +394,6 @@ func c05RunThreading(t *testing.T, secs []verifh.Section) {
 			return c05StartWorkerGroup(cfg)
 		}
 		return func([]string) string { return "bad-kind" }, nil
-	})
+	}
+	verifh.Run(t, secs, start)
 }
